@@ -452,4 +452,179 @@ theorem absDist_le_chain (g : Grammar) (a c k : Nat) (hch : Chain g a c k)
   have := absDistFrom_le g c _ [a] 0 a k (by simp) hch hk
   unfold Grammar.absDist; omega
 
+/-! ### Memoised relabelling in either depth mode -/
+
+theorem eraseList_length : ∀ ts : List LVal, (LVal.eraseList ts).length = ts.length
+  | [] => by simp [eraseList_nil]
+  | t :: ts => by simp [eraseList_cons, eraseList_length ts]
+
+theorem relabelMemoChildrenE_nil (g : Grammar) (ch : Bool) (tys : List (Option Ty)) :
+    relabelMemoChildrenE g ch tys [] = ((0, 0, 0, []), []) := by
+  rw [relabelMemoChildrenE]
+
+theorem relabelMemoChildrenE_cons (g : Grammar) (ch : Bool) (tys : List (Option Ty)) (c : LVal)
+    (cs : List LVal) :
+    relabelMemoChildrenE g ch tys (c :: cs) =
+      let m := relabelMemoE g tys.head?.join c
+      let r := relabelMemoChildrenE g ch tys.tail cs
+      let a := absAdjust g (if ch then tys.head?.join else none) c.erase
+      ((m.1.nodes + a + r.1.1, max (m.1.dtt + a + listAdjust c.erase) r.1.2.1, m.1.weighted + r.1.2.2.1,
+        mergeCounts m.1.types r.1.2.2.2), m.2 :: r.2) := by
+  rw [relabelMemoChildrenE]
+
+/-- the conclusion of memoisation soundness for one tree at a position of declared type `decl` -/
+def MemoOKE (g : Grammar) (decl : Option Ty) (t : LVal) : Prop :=
+  (relabelMemoE g decl t).1 = relabelE g decl t.erase ∧
+  (relabelMemoE g decl t).2.erase = t.erase ∧
+  CachesCorrectE g decl (relabelMemoE g decl t).2
+
+def MemoListOKE (g : Grammar) (ch : Bool) (tys : List (Option Ty)) (ts : List LVal) : Prop :=
+  (relabelMemoChildrenE g ch tys ts).1 = relabelChildrenE g ch tys (LVal.eraseList ts) ∧
+  LVal.eraseList (relabelMemoChildrenE g ch tys ts).2 = LVal.eraseList ts ∧
+  CachesCorrectListE g tys (relabelMemoChildrenE g ch tys ts).2
+
+theorem relabelMemoE_node_none (g : Grammar) (decl : Option Ty) (c d e : Nat) (args : List LVal) :
+    relabelMemoE g decl (.node none c d e args) =
+      if g.isTerminalCls c then
+        (⟨g.e, g.e, g.e, [(.cls c, 1)]⟩, .node (some ⟨g.e, g.e, g.e, [(.cls c, 1)]⟩) c d e args)
+      else
+        let r := relabelMemoChildrenE g true ((g.cls c).fields.map fun f => some f.2) args
+        let l : Lab := ⟨1 + r.1.1, max 1 r.1.2.1, r.1.2.2.1 + max 1 r.1.2.1, mergeCounts [(.cls c, 1)] r.1.2.2.2⟩
+        (l, .node (some l) c d e r.2) := by
+  rw [relabelMemoE]
+
+theorem relabelMemoE_list_none (g : Grammar) (decl : Option Ty) (d e : Nat) (vs : List LVal) :
+    relabelMemoE g decl (.list none d e vs) =
+      let r := relabelMemoChildrenE g true (List.replicate vs.length (decl.bind Ty.elem)) vs
+      let l : Lab := ⟨r.1.1, r.1.2.1, r.1.2.2.1, mergeCounts [(.list, 1)] r.1.2.2.2⟩
+      (l, .list (some l) d e r.2) := by
+  rw [relabelMemoE]
+
+theorem relabelMemoE_tuple (g : Grammar) (decl : Option Ty) (vs : List LVal) :
+    relabelMemoE g decl (.tuple vs) =
+      let r := relabelMemoChildrenE g false (((decl.map Ty.comps).getD []).map some) vs
+      (⟨r.1.1, r.1.2.1, r.1.2.2.1, mergeCounts [(.tuple, 1)] r.1.2.2.2⟩, .tuple r.2) := by
+  rw [relabelMemoE]
+
+mutual
+theorem memoE_ok (g : Grammar) : ∀ (decl : Option Ty) (t : LVal), CachesCorrectE g decl t → MemoOKE g decl t
+  | decl, .node (some l) c d e args => by
+      intro H
+      simp only [CachesCorrectE] at H
+      have hl := H.1 l rfl
+      refine ⟨?_, ?_, ?_⟩
+      · simpa [relabelMemoE, LVal.erase] using hl
+      · simp [relabelMemoE]
+      · simp only [relabelMemoE, CachesCorrectE]
+        exact ⟨fun l' h => by cases h; exact hl, H.2⟩
+  | decl, .node none c d e args => by
+      intro H
+      simp only [CachesCorrectE] at H
+      obtain ⟨ih1, ih2, ih3⟩ := memoListE_ok g true ((g.cls c).fields.map fun f => some f.2) args H.2
+      rw [MemoOKE, relabelMemoE_node_none]
+      by_cases h : g.isTerminalCls c
+      · rw [if_pos h]
+        refine ⟨by simp [LVal.erase, relabelE_node, h], by simp [LVal.erase], ?_⟩
+        simp only [CachesCorrectE]
+        exact ⟨fun l' h' => by cases h'; simp [relabelE_node, h], H.2⟩
+      · rw [if_neg h]
+        dsimp only
+        have key : (⟨1 + (relabelMemoChildrenE g true ((g.cls c).fields.map fun f => some f.2) args).1.1,
+              max 1 (relabelMemoChildrenE g true ((g.cls c).fields.map fun f => some f.2) args).1.2.1,
+              (relabelMemoChildrenE g true ((g.cls c).fields.map fun f => some f.2) args).1.2.2.1 +
+                max 1 (relabelMemoChildrenE g true ((g.cls c).fields.map fun f => some f.2) args).1.2.1,
+              mergeCounts [(.cls c, 1)]
+                (relabelMemoChildrenE g true ((g.cls c).fields.map fun f => some f.2) args).1.2.2.2⟩ : Lab) =
+            relabelE g decl (.node c d e (LVal.eraseList args)) := by
+          rw [relabelE_node]; simp [h, childDecls, ih1]
+        refine ⟨by simpa [LVal.erase] using key, by simp [LVal.erase, ih2], ?_⟩
+        simp only [CachesCorrectE, ih2]
+        exact ⟨fun l' h' => by cases h'; exact key, ih3⟩
+  | decl, .list (some l) d e vs => by
+      intro H
+      simp only [CachesCorrectE] at H
+      have hl := H.1 l rfl
+      refine ⟨?_, ?_, ?_⟩
+      · simpa [relabelMemoE, LVal.erase] using hl
+      · simp [relabelMemoE]
+      · simp only [relabelMemoE, CachesCorrectE]
+        exact ⟨fun l' h => by cases h; exact hl, H.2⟩
+  | decl, .list none d e vs => by
+      intro H
+      simp only [CachesCorrectE] at H
+      obtain ⟨ih1, ih2, ih3⟩ := memoListE_ok g true (List.replicate vs.length (decl.bind Ty.elem)) vs H.2
+      rw [MemoOKE, relabelMemoE_list_none]
+      dsimp only
+      have hlen : (relabelMemoChildrenE g true (List.replicate vs.length (decl.bind Ty.elem)) vs).2.length = vs.length := by
+        rw [← eraseList_length, ih2, eraseList_length]
+      have key : (⟨(relabelMemoChildrenE g true (List.replicate vs.length (decl.bind Ty.elem)) vs).1.1,
+            (relabelMemoChildrenE g true (List.replicate vs.length (decl.bind Ty.elem)) vs).1.2.1,
+            (relabelMemoChildrenE g true (List.replicate vs.length (decl.bind Ty.elem)) vs).1.2.2.1,
+            mergeCounts [(.list, 1)]
+              (relabelMemoChildrenE g true (List.replicate vs.length (decl.bind Ty.elem)) vs).1.2.2.2⟩ : Lab) =
+          relabelE g decl (.list d e (LVal.eraseList vs)) := by
+        rw [relabelE_list]; simp [childDecls, eraseList_length, ih1]
+      refine ⟨by simpa [LVal.erase] using key, by simp [LVal.erase, ih2], ?_⟩
+      simp only [CachesCorrectE, ih2, hlen]
+      exact ⟨fun l' h' => by cases h'; exact key, ih3⟩
+  | decl, .tuple vs => by
+      intro H
+      simp only [CachesCorrectE] at H
+      obtain ⟨ih1, ih2, ih3⟩ := memoListE_ok g false (((decl.map Ty.comps).getD []).map some) vs H
+      rw [MemoOKE, relabelMemoE_tuple]
+      dsimp only
+      refine ⟨?_, by simp [LVal.erase, ih2], ?_⟩
+      · simp [LVal.erase, relabelE_tuple, childDecls, ih1]
+      · simpa [CachesCorrectE] using ih3
+  | _, .int _ => by intro _; simp [MemoOKE, relabelMemoE, LVal.erase, relabelE, Val.key, CachesCorrectE]
+  | _, .float => by intro _; simp [MemoOKE, relabelMemoE, LVal.erase, relabelE, Val.key, CachesCorrectE]
+  | _, .str _ => by intro _; simp [MemoOKE, relabelMemoE, LVal.erase, relabelE, Val.key, CachesCorrectE]
+  | _, .bool _ => by intro _; simp [MemoOKE, relabelMemoE, LVal.erase, relabelE, Val.key, CachesCorrectE]
+  | _, .foreign _ => by intro _; simp [MemoOKE, relabelMemoE, LVal.erase, relabelE, Val.key, CachesCorrectE]
+theorem memoListE_ok (g : Grammar) :
+    ∀ (ch : Bool) (tys : List (Option Ty)) (ts : List LVal),
+      CachesCorrectListE g tys ts → MemoListOKE g ch tys ts
+  | ch, tys, [] => by
+      intro _
+      simp [MemoListOKE, relabelMemoChildrenE_nil, eraseList_nil, relabelChildrenE_nil, CachesCorrectListE]
+  | ch, tys, t :: ts => by
+      intro H
+      simp only [CachesCorrectListE] at H
+      obtain ⟨a1, a2, a3⟩ := memoE_ok g tys.head?.join t H.1
+      obtain ⟨b1, b2, b3⟩ := memoListE_ok g ch tys.tail ts H.2
+      refine ⟨?_, ?_, ?_⟩
+      · simp [relabelMemoChildrenE_cons, eraseList_cons, relabelChildrenE_cons, a1, b1]
+      · simp [relabelMemoChildrenE_cons, eraseList_cons, a2, b2]
+      · simp only [relabelMemoChildrenE_cons, CachesCorrectListE]; exact ⟨a3, b3⟩
+end
+
+theorem freshList_length : ∀ vs : List Val, (LVal.freshList vs).length = vs.length
+  | [] => by simp [LVal.freshList]
+  | v :: vs => by simp [LVal.freshList, freshList_length vs]
+
+mutual
+/-- nothing is cached on a fresh value, so every cache on it is (vacuously) correct -/
+theorem freshE_ok (g : Grammar) : ∀ (decl : Option Ty) (v : Val), CachesCorrectE g decl (LVal.fresh v)
+  | decl, .node c d e args => by
+      simp only [LVal.fresh, CachesCorrectE]
+      exact ⟨fun l h => (by cases h), freshListE_ok g _ args⟩
+  | decl, .list d e vs => by
+      simp only [LVal.fresh, CachesCorrectE]
+      exact ⟨fun l h => (by cases h), freshListE_ok g _ vs⟩
+  | decl, .tuple vs => by
+      simp only [LVal.fresh, CachesCorrectE]
+      exact freshListE_ok g _ vs
+  | _, .int _ => by simp [LVal.fresh, CachesCorrectE]
+  | _, .float => by simp [LVal.fresh, CachesCorrectE]
+  | _, .str _ => by simp [LVal.fresh, CachesCorrectE]
+  | _, .bool _ => by simp [LVal.fresh, CachesCorrectE]
+  | _, .foreign _ => by simp [LVal.fresh, CachesCorrectE]
+theorem freshListE_ok (g : Grammar) :
+    ∀ (tys : List (Option Ty)) (vs : List Val), CachesCorrectListE g tys (LVal.freshList vs)
+  | _, [] => by simp [LVal.freshList, CachesCorrectListE]
+  | tys, v :: vs => by
+      simp only [LVal.freshList, CachesCorrectListE]
+      exact ⟨freshE_ok g _ v, freshListE_ok g _ vs⟩
+end
+
 end GEVerif.Labels
